@@ -3,7 +3,7 @@
    batch = map over the arguments) are copies of the core loops and are checked against the SAME executable
    models as the core (the `py:` case lines dispatch to the core models).  What can be stated as theorems: *)
 From Coq Require Import NArith ZArith List Lia Bool ZifyN ZifyBool String.
-From KT Require Import Gen.Generated Gen.Alphabet Gen.GeneratedFacts Gen.UnsafeInv Gen.UnsafePyFacts Model.Kmer Model.Show Model.Ops Model.Rows Model.Pipeline.
+From KT Require Import Gen.Generated Gen.Alphabet Gen.FactsBase Gen.FactCornersCgr Gen.FactTableKmer Gen.FactTableKmerMinimisers Gen.FactTableMinimiser Gen.UnsafeInv Gen.UnsafePyFacts Model.Kmer Model.Show Model.Ops Model.Rows Model.Pipeline.
 From KT Require Import Extract.Dispatch Proof.Utf8 Proof.RowsProof.
 Import ListNotations.
 Open Scope N_scope.
